@@ -90,6 +90,11 @@ func c07SchedRun(rep *common.Report, procs int) (bool, int) {
 			jobs = append(jobs, sched.Job{Scenario: n, Preempt: pre, Data: 1, Sched: sd, ShardI: s, ShardN: shards, BudgetS: budget})
 		}
 	}
+	totalBudget := 40.0
+	if common.Tier() == "thorough" {
+		totalBudget = 600
+	}
+	sched.SpreadBudget(jobs, totalBudget, procs, 15)
 	tot := sched.RunAll(rep, jobs, []string{"C07", "schedworker"}, procs)
 	rep.Set("sched_executions", tot.Executions)
 	rep.Set("sched_executions_with_checkpoint", tot.Interesting)
